@@ -9,6 +9,7 @@ fns, opaque external types with assume_specification) and whose executable funct
     //@attr <attribute>               a Verus attribute line placed above the signature (e.g. opting out of termination)
     //@none_args <Type>               R8: every `&mut None` argument becomes a fresh `Option<Type>` local
     //@loop <k> <clause text>         invariant/decreases lines for the k-th loop (source order, from 0)
+    //@loop_opt <k> <clause text>     the same, but if the function no longer has a k-th loop the clauses are dropped
     //@subst <old>=><new>             literal replacement in signature+body (each counted, each listed in evidence)
     //@subst_re <regex>=><new>        same with a (DOTALL) regular expression, for multi-line `assert!(.., "fmt", ..)`
     //@subst_alt <group> <regex>=><new>  alternatives for ONE site that may legitimately have more than one shape (e.g. before
@@ -129,6 +130,7 @@ def generate(unit, repo):
         if s.startswith("//@extract "):
             _, src, spec = s.split()
             ret, specs, loops, substs, befores, attrs, at_end = None, [], {}, [], [], [], []
+            opt_loops = set()
             none_ty = None
             i += 1
             while not lines[i].strip().startswith("//@end"):
@@ -144,6 +146,12 @@ def generate(unit, repo):
                 elif d.startswith("//@loop "):
                     _, k, rest = d.split(None, 2)
                     loops.setdefault(int(k), []).append(rest)
+                elif d.startswith("//@loop_opt "):
+                    # clauses for a loop that a change may legitimately (or illegitimately) remove: if the loop is gone the
+                    # clauses are dropped and the function is verified without them (its postcondition decides)
+                    _, k, rest = d.split(None, 2)
+                    loops.setdefault(int(k), []).append(rest)
+                    opt_loops.add(int(k))
                 elif d.startswith("//@subst_re "):
                     a, b = split_arrow(d[len("//@subst_re "):])
                     substs.append(("re:" + a, b))
@@ -242,6 +250,9 @@ def generate(unit, repo):
                 pos = extract.loop_positions(body)
                 for k in sorted(loops, reverse=True):
                     if k >= len(pos):
+                        if k in opt_loops:
+                            info["dropped"].append("loop clauses of loop %d in %s (loop not present)" % (k, spec))
+                            continue
                         raise ValueError("lost anchor: loop %d in %s" % (k, spec))
                     p = pos[k]
                     body = body[:p] + "\n" + "\n".join(loops[k]) + "\n" + body[p:]
